@@ -25,11 +25,9 @@ import sys
 
 import numpy as np
 from hypothesis import strategies as st
-from immutabledict import immutabledict
 
 import strax
-from vf.core import Excluded, SubCheck, Violation
-from vf.findings import signature
+from vf.core import SubCheck, Violation
 from vf.ref import c02_lineage as R
 
 PROPERTY_ID = "C02"
@@ -44,10 +42,9 @@ RULE = (
     "1 / 1.0 / True or (1,2) / [1,2] occur).  Non-trivial = the history contains a make/get that stored data, "
     "followed by a lineage-affecting change, followed by a later get_array.  keys: non-trivial = the mutation "
     "changes the reference lineage of at least one but not of all data types.  xproc: non-trivial = the batch "
-    "contains a nested dict or a numpy / immutabledict value.  distinct = distinct descriptor hashes.  Histories "
-    "that meet the shape of a recorded finding (F4, F0230, F0231) are continued on a route around it (registration "
-    "through new_context / a new context object / the as-is answer of the fuzzy lookup), checked to the end and then "
-    "counted under excluded_known; one history in eight is left unsteered."
+    "contains a nested dict or a numpy / immutabledict value.  distinct = distinct descriptor hashes.  (The shapes "
+    "of the findings F4, F0230, F0231 - fixed in /repo - are generated and checked like everything else; their "
+    "replays are regression cases.)"
 )
 ASSUMPTIONS = [
     "NUMBA_DISABLE_JIT=1 for all workers: the numba helpers are not the subject of this property",
@@ -67,7 +64,6 @@ ASSUMPTIONS = [
 ]
 
 RUN = "r"
-STEER = not os.environ.get("C02_NO_STEER")  # development switch: look at the recorded findings unsteered
 DTYPE = np.dtype(strax.time_fields + [("x", np.int64)])
 
 
@@ -308,10 +304,8 @@ def st_op(draw):
                     mode=draw(st.sampled_from(["update"] * 6 + ["setdefault", "replace"])))
     if k == "register":
         change = draw(st_change())
-        # in-place registration that leaves version and compressor alone is the recorded finding F4: keep it rare
-        via = ["inplace", "inplace", "new_context"] if ("version" in change or "comp" in change) else \
-            ["new_context", "new_context", "new_context", "inplace"]
-        return dict(op=k, slot=draw(st.integers(0, len(R.SLOTS) - 1)), change=change, via=draw(st.sampled_from(via)))
+        return dict(op=k, slot=draw(st.integers(0, len(R.SLOTS) - 1)), change=change,
+                    via=draw(st.sampled_from(["inplace", "inplace", "new_context"])))
     if k == "bump":
         return dict(op=k, cls=draw(st.integers(0, 11)), ver=draw(st.integers(0, 3)))
     if k == "new_context":
@@ -387,8 +381,7 @@ def st_history(draw):
     parts = draw(st.lists(st.one_of(st_op().map(lambda o: [o]), st_op().map(lambda o: [o]), st_motif()),
                           min_size=2, max_size=14))
     ops = [o for p in parts for o in p][:30]
-    return dict(init=draw(st_init()), ops=ops, seed=draw(st.integers(0, 10 ** 6)),
-                nosteer=draw(st.integers(0, 7)) == 0)
+    return dict(init=draw(st_init()), ops=ops, seed=draw(st.integers(0, 10 ** 6)))
 
 
 def state_from_init(init):
@@ -414,7 +407,6 @@ def state_from_init(init):
 class History:
     def __init__(self, d):
         self.d = d
-        self.steer = STEER and not d.get("nosteer")
         self.rng = np.random.RandomState(d["seed"])
         self.dir = scratch_dir("h")
         self.fresh_dir = scratch_dir("f")
@@ -429,9 +421,6 @@ class History:
         self.seen_key = {}
         self.seen_loose = {}
         self.classes = set()
-        self.tags = []  # facts about the history that identify recorded findings, prefixed to violation messages
-        self.stale = {}  # finding -> data types whose cached plugin is stale (recorded findings F4, F0231)
-        self.steered = set()  # recorded findings this history was steered around (-> Excluded at the end)
         self.last_opt = None  # option / slot of the latest lineage-affecting change (fuzzy ops may aim at them)
         self.last_slot = None
         self.step = -1
@@ -447,10 +436,7 @@ class History:
 
     # -- reporting ------------------------------------------------------------------------------------
     def fail(self, clause, t, detail):
-        tags = list(self.tags)
-        for f, ts in sorted(self.stale.items()):
-            tags.append(f"{f}-shape types=" + ",".join(sorted(ts)))
-        raise Violation(clause, "".join(f"[{x}]" for x in tags) + f" t={t} step={self.step} op={json.dumps(self.op)} "
+        raise Violation(clause, f"t={t} step={self.step} op={json.dumps(self.op)} "
                         + (detail if isinstance(detail, str) else repr(detail)))
 
     # -- model helpers --------------------------------------------------------------------------------
@@ -467,13 +453,7 @@ class History:
             out += R.PROVIDES[s]
         return out
 
-    def f0230_shaped(self, item, lin, key, ffs, ffo):
-        """Recorded finding F0230: the fuzzy comparison is between the json-decoded stored lineage (lists) and the
-        in-memory lineage (tuples), so data that must match is refused when a tuple is left after filtering."""
-        return bool((ffs or ffo) and item["dir"] != key and R.match3(item["lin"], lin, ffs, ffo) == "yes"
-                    and R.lineage_has_tuple(R.filter_lineage(lin, ffs, ffo)))
-
-    def stored_answer(self, state, t, key, honour_f0230=False):
+    def stored_answer(self, state, t):
         """'yes' / 'no' / 'either' for is_stored(t) under `state` (fuzzy settings included)."""
         ffs, ffo = self.fuzzy(state)
         lin = R.lineage(state, t)
@@ -482,15 +462,13 @@ class History:
             if it["t"] != t:
                 continue
             m = R.match3(it["lin"], lin, ffs, ffo)
-            if honour_f0230 and m == "yes" and self.f0230_shaped(it, lin, key, ffs, ffo):
-                m = "no"
             if m == "yes":
                 return "yes"
             if m == "either":
                 ans = "either"
         return ans
 
-    def admissible(self, state, t, keys, honour_f0230=False):
+    def admissible(self, state, t):
         """Set of row tuples get_array(t) may return under `state`: stored data that must / may be accepted, else
         the current plugin applied to an admissible input."""
         ffs, ffo = self.fuzzy(state)
@@ -500,8 +478,6 @@ class History:
             if it["t"] != t:
                 continue
             m = R.match3(it["lin"], lin, ffs, ffo)
-            if honour_f0230 and m == "yes" and self.f0230_shaped(it, lin, keys[t], ffs, ffo):
-                m = "no"
             if m == "yes":
                 yes.append(it)
             elif m == "either":
@@ -510,7 +486,7 @@ class History:
         if not yes:
             spec = state["classes"][state["reg"][R.SLOT_OF[t]]]
             if spec["deps"]:
-                for dep_rows in self.admissible(state, spec["deps"][0], keys, honour_f0230):
+                for dep_rows in self.admissible(state, spec["deps"][0]):
                     out.add(tuple(R.compute_from(state, t, list(dep_rows))))
             else:
                 out.add(tuple(R.compute_from(state, t, None)))
@@ -551,14 +527,7 @@ class History:
             if fuzzy_on and not R.storable(lin):
                 self.classes.add("skip_is_stored_unstorable_fuzzy")
                 continue
-            want = self.stored_answer(state, t, keys[t])
-            self.tags = []
-            if fuzzy_on and want != self.stored_answer(state, t, keys[t], honour_f0230=True):
-                if self.steer:  # expect what the recorded finding makes of it, count the history as excluded
-                    self.steered.add("F0230")
-                    want = self.stored_answer(state, t, keys[t], honour_f0230=True)
-                else:
-                    self.tags = ["F0230-shape"]
+            want = self.stored_answer(state, t)
             got = self.ctx.is_stored(RUN, t)
             if want == "yes" and not got:
                 self.fail("is_stored.false_although_matching_data_exists", t, f"fuzzy={state['ff']},{state['ffo']} "
@@ -570,7 +539,6 @@ class History:
                 self.classes.add("is_stored_either")
             elif fuzzy_on and got and keys[t] not in self.dirs:
                 self.classes.add("is_stored_by_fuzzy_match")
-        self.tags = []
         ls = self.listing()
         if ls != self.dirs:
             self.fail("store.directory_changed_without_compute", "-", f"{sorted(ls)} vs {sorted(self.dirs)}")
@@ -590,11 +558,8 @@ class History:
     def op_set_config(self, op):
         o = R.ALL_OPTIONS[op["opt"] % len(R.ALL_OPTIONS)]
         before = self.lineage_snapshot()
-        cfg_before = json.dumps({k: R.hashlike(v) for k, v in self.state["config"].items()}, sort_keys=True)
         R.do_set_config(self.state, [(o, op["val"])], op["mode"])
         self.ctx.set_config({o: R.build(op["val"])}, mode=op["mode"])
-        if cfg_before != json.dumps({k: R.hashlike(v) for k, v in self.state["config"].items()}, sort_keys=True):
-            self.stale.clear()  # the context hash changed: cached plugins are dropped
         changed = self.note_change(before)
         if changed:
             self.last_opt = o
@@ -618,34 +583,20 @@ class History:
         R.do_register(trial, spec)
         after = R.all_keys_canon(trial, R.loose)
         affected = {t for t in after if before.get(t) != after[t]}
-        before_s, after_s = R.all_keys_canon(state, R.strict), R.all_keys_canon(trial, R.strict)
-        affected_s = {t for t in after_s if before_s.get(t) != after_s[t]}  # (a default 1 -> 1.0 counts as well)
-        deps_changed = old is not None and old["deps"] != spec["deps"]
         same_hash = old is not None and (old["version"], old["comp"]) == (spec["version"], spec["comp"])
-        f4 = op["via"] == "inplace" and same_hash and bool(affected_s or deps_changed)
-        if f4:
-            # recorded finding F4: the plugin cache is not invalidated by this registration
-            if self.steer:  # register through new_context instead (no warm cache), count the history as excluded
-                self.steered.add("F4")
-                op = dict(op, via="new_context")
-            else:
-                affected = affected | affected_s | {u for g in (state, trial) for u in R.registered_types(g)
-                                       if slot in R.ancestors_slots(g, R.SLOT_OF[u])}
-                self.stale.setdefault("F4", set()).update(affected)
-        elif op["via"] == "inplace" and not same_hash:
-            self.stale.clear()  # version / compressor are part of the context hash
         ci = R.do_register(state, spec)
         cls = make_class(state, ci, self.built)
         if op["via"] == "inplace":
             self.ctx.register(cls)
         else:
             self.ctx = self.ctx.new_context(register=[cls])
-            self.stale.clear()
         if self.note_change(before):
             self.last_slot = slot
         what = sorted(k for k in op["change"] if k in ("name", "version", "default", "deps", "comp"))
         self.classes.add("register_" + "+".join(what) + ("_new" if old is None else ""))
         self.classes.add(f"register_{op['via']}_{'affects' if affected else 'neutral'}")
+        if op["via"] == "inplace" and same_hash and affected:
+            self.classes.add("register_inplace_same_version_affects")  # the shape of the (fixed) finding F4
 
     def op_bump(self, op):
         state = self.state
@@ -654,22 +605,12 @@ class History:
         ver = R.VERSIONS[op["ver"] % len(R.VERSIONS)]
         before = self.lineage_snapshot()
         registered = ci in state["reg"].values()
-        if spec["version"] != ver and registered:
-            self.stale.clear()
         is_base = any(s.get("base") == ci and cj in state["reg"].values() for cj, s in enumerate(state["classes"]))
         spec["version"] = ver
         make_class(state, ci, self.built).__version__ = ver
         changed = self.note_change(before)
         if changed and not registered and is_base:
-            # recorded finding F0231: the context hash only covers the versions of REGISTERED classes, the lineage of a
-            # child plugin also holds the version of its (here: no longer registered) parent class
-            if self.steer:  # continue on a new context object (no warm cache), count the history as excluded
-                self.steered.add("F0231")
-                self.ctx = self.ctx.new_context()
-                self.stale.clear()
-            else:
-                self.stale.setdefault("F0231", set()).update(changed)
-            self.classes.add("bump_unregistered_parent")
+            self.classes.add("bump_unregistered_parent")  # the shape of the (fixed) finding F0231
         if changed:
             self.last_slot = spec["slot"]
         self.classes.add("bump_" + ("changes_lineage" if changed else "no_lineage_change"))
@@ -679,7 +620,6 @@ class History:
         before = self.lineage_snapshot()
         R.do_set_config(self.state, items)
         self.ctx = self.ctx.new_context(config={o: R.build(v) for o, v in items})
-        self.stale.clear()
         self.note_change(before)
         self.classes.add("new_context")
 
@@ -706,7 +646,6 @@ class History:
             self.ctx.context_config["fuzzy_for_options"] = tuple(ffo)
         else:
             self.ctx = self.ctx.new_context(fuzzy_for=tuple(ff), fuzzy_for_options=tuple(ffo))
-            self.stale.clear()
         self.classes.add("fuzzy_" + ("off" if not (ff or ffo) else "for" if not ffo else "options" if not ff else "both"))
 
     def op_compute(self, op, keys):
@@ -725,15 +664,11 @@ class History:
             self.classes.add("skip_unstorable")
             return
         if fuzzy_on:
-            want = self.admissible(call_state, t, keys)
-            if want != self.admissible(call_state, t, keys, honour_f0230=True) or any(
-                    self.f0230_shaped(it, R.lineage(call_state, it["t"]), keys[it["t"]], *self.fuzzy(call_state))
-                    for it in self.stored if it["t"] in self.closure_types(t)):
-                if self.steer:  # accept what the recorded finding makes of it, count the history as excluded
-                    self.steered.add("F0230")
-                    want = want | self.admissible(call_state, t, keys, honour_f0230=True)
-                else:
-                    self.tags = ["F0230-shape"]
+            want = self.admissible(call_state, t)
+            if any(it["t"] in self.closure_types(t) and it["dir"] != keys[it["t"]] and R.lineage_has_tuple(it["lin"])
+                   and R.match3(it["lin"], R.lineage(call_state, it["t"]), *self.fuzzy(call_state)) == "yes"
+                   for it in self.stored):
+                self.classes.add("fuzzy_match_with_tuple_valued_option")  # the shape of the (fixed) finding F0230
         else:
             want = {tuple(R.rows_of(state, t))}
             # data of an ambiguous twin (say stored under a_t=1, now a_t=1.0) has identical rows by construction
@@ -785,7 +720,6 @@ class History:
             self.stored.append(dict(t=u, dir=name, lin=R.lineage(state, u), rows=R.rows_of(state, u)))
             self.stored_something = True
         self.dirs = ls
-        self.tags = []
         if not fuzzy_on and not new:
             self.classes.add("reused_stored_data")
         self.classes.add(op["op"] + ("_fuzzy" if fuzzy_on else "") + ("_computed" if new else "_nothing_written"))
@@ -810,8 +744,6 @@ class History:
             else:
                 self.op_compute(op, keys)
             keys = self.check_state()
-        if self.steered:
-            raise Excluded(sorted(self.steered)[0])
         return dict(nt=self.nt, classes=sorted(self.classes))
 
 
@@ -983,49 +915,6 @@ def run_xproc(d):
     classes = ["value_" + k for k in ("dict", "np", "arr", "imm", "tuple") if f'"k": "{k}"' in flat]
     nested = '"k": "dict", "v": [["' in flat
     return dict(nt=nested or any(c in classes for c in ("value_np", "value_arr", "value_imm")), classes=classes)
-
-
-# ----------------------------------------------------------------------------------------------------
-# recorded findings
-# ----------------------------------------------------------------------------------------------------
-def _stale_types(message, finding):
-    tag = f"[{finding}-shape types="
-    if tag not in message or " t=" not in message:
-        return None, None
-    return set(message.split(tag, 1)[1].split("]", 1)[0].split(",")), message.split(" t=", 1)[1].split(" ", 1)[0]
-
-
-STALE_BUCKETS = (
-    "clause:key.differs_from_fresh_context", "clause:get.rows_differ_from_reference",
-    "clause:get.differs_from_fresh_context_on_empty_storage", "clause:store.written_under_non_current_key",
-    "clause:is_stored.false_although_matching_data_exists", "clause:is_stored.true_without_matching_data",
-    "clause:key.differs_for_identical_lineage", "clause:key.same_for_different_lineage",
-    "clause:get.rows_not_admissible_under_fuzzy")
-
-
-@signature("F4_plugin_cache_survives_reregistration")
-def _sig_f4(sub, desc, bucket, message):
-    """Context.register on a context whose plugin cache is warm, with a class that leaves (version, compressor)
-    of the data type unchanged but differs in class name / tracked default / depends_on: _context_hash does not
-    change, the cached plugin of the OLD class keeps being used for this type and its descendants."""
-    types, t = _stale_types(message, "F4")
-    return sub == "history" and bool(types) and t in types and bucket in STALE_BUCKETS
-
-
-@signature("F0231_plugin_cache_survives_bump_of_unregistered_parent")
-def _sig_f0231(sub, desc, bucket, message):
-    """In-place __version__ bump of a class that is the base of a registered child plugin but is itself not (or no
-    longer) registered: the child's lineage holds the parent's version, _context_hash does not."""
-    types, t = _stale_types(message, "F0231")
-    return sub == "history" and bool(types) and t in types and bucket in STALE_BUCKETS
-
-
-@signature("F0230_fuzzy_match_compares_json_lists_with_tuples")
-def _sig_f0230(sub, desc, bucket, message):
-    """Fuzzy matching compares the json-decoded stored lineage with the in-memory one: a tuple-valued tracked option
-    outside the fuzzy parts never matches, data that differs only in the fuzzy parts is refused."""
-    return sub == "history" and "[F0230-shape]" in message and bucket in (
-        "clause:is_stored.false_although_matching_data_exists", "clause:get.rows_not_admissible_under_fuzzy")
 
 
 SUBCHECKS = [
